@@ -239,10 +239,13 @@ def _heal_table(p, led, cl, heal):
         # the generator side of the adversarial family; the validator side (valid at attempt k, alternating, always
         # invalid) is every accept/reject sequence, chosen by the oracle
         fam = [("text", None), ("always-blank", None), ("always-raises", None)]
+        if retries > SMALL:
+            return fam        # large limits: deterministic adversaries only (the validator rejects every attempt)
         for k in range(retries + 1):
             fam += [("blank-at", k), ("raises-at", k)]
         return fam
-    for retries, (gbeh, gk) in [(r_, b_) for r_ in (0, 1, 2, 3) for b_ in family(r_)]:
+    SMALL = 3
+    for retries, (gbeh, gk) in [(r_, b_) for r_ in (0, 1, 2, 3, 6, 11, 30) for b_ in family(r_)]:
         def go(o, _r=retries, _gbeh=gbeh, _gk=gk):
             it = Interp(p, o)
             glog, folds = [], []
@@ -262,7 +265,7 @@ def _heal_table(p, led, cl, heal):
 
             def fold(interp, args, kwargs):
                 i = len(folds)
-                ok = interp.o.choose(2, f"attempt {i}: schema-valid / invalid") == 0
+                ok = (interp.o.choose(2, f"attempt {i}: schema-valid / invalid") == 0) if _r <= SMALL else False
                 fp = interp.instantiate(efp, [], dict(valid=ok, structure=(Unknown(f"structure{i}") if ok else None), raw_peptide_chain=args[1] if len(args) > 1 else "",
                                                       error_trace=(None if ok else f"ERR#{i}#"), confidence=0.9))
                 folds.append(fp)
@@ -330,7 +333,7 @@ def _heal_table(p, led, cl, heal):
         if mine:
             led.fail("C18-R1", title, where(heal, heal.node), mine[0], path=mine[:6])
         else:
-            led.ok("C18-R1", title, where(heal, heal.node), f"{npaths} path(s) over max_retries 0–3 × every valid/invalid sequence of attempts × generators returning text, blank text (always / at call k) or raising (always / at call k)")
+            led.ok("C18-R1", title, where(heal, heal.node), f"{npaths} path(s) over max_retries 0–3 × every valid/invalid sequence of attempts × generators returning text, blank text (always / at call k) or raising (always / at call k); max_retries 6, 11, 30 against an always-rejecting validator")
     return not any(probs.values())
 
 
@@ -346,10 +349,11 @@ def _swarm_table(p, led, sw, sup):
     markers = ("DONE",)
     probs = {"spawn": [], "steps": [], "success": []}
     nruns = 0
-    for regen in (0, 1, 2, 3):
-        for steps in (0, 1, 2, 3):
+    for regen, steps in [(a, b) for a in (0, 1, 2, 3) for b in (0, 1, 2, 3)] + [(6, 2), (2, 7), (11, 1)]:
+        if True:
             total = (regen + 1) * steps
-            behaviours = [("never", None), ("same", None)] + [("done", k) for k in range(total)] + [("raise", k) for k in range(0, total, max(1, steps))]
+            small = regen <= 3 and steps <= 3
+            behaviours = [("never", None), ("same", None)] + ([("done", k) for k in range(total)] + [("raise", k) for k in range(0, total, max(1, steps))] if small else [("done", total - 1)])
             for beh, k in behaviours:
                 def go(o, _regen=regen, _steps=steps, _beh=beh, _k=k):
                     it = Interp(p, o)
@@ -424,7 +428,7 @@ def _swarm_table(p, led, sw, sup):
             ok_all = False
             led.fail("C18-R2", title, where(sup, sup.node), mine[0] + (f" (+{len(mine) - 1} more)" if len(mine) > 1 else ""), witness=mine[0])
         else:
-            led.ok("C18-R2", title, where(sup, sup.node), f"{nruns} interpreted runs: limits 0–3 × 0–3, workers never finishing / repeating / finishing at step k / raising at step k")
+            led.ok("C18-R2", title, where(sup, sup.node), f"{nruns} interpreted runs: limits 0–3 × 0–3 (workers never finishing / repeating / finishing at step k / raising at step k) and (6,2), (2,7), (11,1) against workers that never finish")
     return ok_all
 
 
@@ -606,8 +610,8 @@ def _tool_loop_table(p, led, nuc, twt):
     completion after an exhausted loop — interpreted for max_iterations 0..4"""
     from ..fdai import Interp, Obj, Unknown, PyRaise, ExcVal, explore, Imprecise, stub
     probs, npaths = [], 0
-    for limit in (0, 1, 2, 3, 4):
-        for behaviour in ("forever", "stops") + (("raises",) if limit else ()):
+    for limit in (0, 1, 2, 3, 4, 9, 30):
+        for behaviour in (("forever", "stops") if limit <= 4 else ("forever",)) + (("raises",) if limit else ()):
             def go(o, _limit=limit, _beh=behaviour):
                 it = Interp(p, o)
                 log = []
